@@ -9,6 +9,7 @@ from mc.ref import pen as RP
 PROPERTY = "C03"
 LEVEL = "model_checking"
 ASSUMPTIONS = [
+    "warm starts of exp-based losses (logistic, Poisson, Gamma, Cox) are kept inside |X w0 + b| <= 30 (float64 saturation regime excluded)",
     "true objective = documented loss + documented penalty recomputed from the returned coefficients alone (mc/ref/cert.py)",
     "monotonicity is asserted only along prefix edges (k,e)->(k+1,e) and (1,e)->(1,e+1) of one deterministic trajectory, "
     "and 'never above the start' on every node; (k,e)->(k+1,e) edges are first validated by obj_out prefix equality",
@@ -57,7 +58,31 @@ def plan(tier, seed):
         for part in range(nparts):
             tasks.append(dict(op="traj", solver=s, datafit=d, pen=p, storage=st, part=part, nparts=nparts, weight=4))
     tasks.append(dict(op="reweighted", weight=3))
+    for p0 in (1, 2):
+        tasks.append(dict(op="deep", p0=p0, weight=3))
     return tasks
+
+
+def deep_comps(task, tier):
+    """Long columns (k up to 12) at the extrapolation periods with tiny working sets on correlated designs."""
+    from mc import alphabet as A
+    Xs = [("ws6x5", c01.WS_X, c01.WS_Y), ("dup", A.K()["dup"], A.reg_targets(A.K()["dup"])["generic"]),
+          ("lincomb", A.K()["lincomb"], A.reg_targets(A.K()["lincomb"])["shifted"])]
+    for xid, X, y in Xs:
+        p = X.shape[1]
+        a0 = float(np.max(np.abs(X.T @ (y - y.mean()))) / len(y))
+        for frac in (0.3, 0.05, 0.005):
+            for ps in (dict(name="L1", alpha=frac * a0, positive=False),
+                       dict(name="WeightedL1", alpha=frac * a0, weights=([1.0, 0.0, 2.0, 0.0, 1.0])[:p], positive=False),
+                       dict(name="L1_plus_L2", alpha=2 * frac * a0, l1_ratio=0.5, positive=False)):
+                for fi in (True, False):
+                    starts = [None] + [w for w in R.starts(p, fi, "thorough")][:6:2]
+                    for w0 in starts:
+                        comp = dict(solver=dict(name="AndersonCD", kw=dict(p0=task["p0"], tol=1e-12, fit_intercept=fi)),
+                                    datafit=dict(name="Quadratic"), penalty=ps, X=X.tolist(), y=y.tolist(), storage="denseF", xid=xid)
+                        if w0 is not None:
+                            comp["w_init"] = w0.tolist()
+                        yield comp
 
 
 def base_comps(task, tier):
@@ -87,6 +112,8 @@ def base_comps(task, tier):
                             comp = dict(solver=sspec, datafit={k: v for k, v in dspec.items() if k != "layout"} if dspec else None,
                                         penalty=ps, X=X.tolist(), y=y.tolist(), storage=st, xid=xid)
                             if w0 is not None:
+                                if not R.start_in_range(dn, X, w0, fit_intercept_of(sspec)):
+                                    continue
                                 if ps.get("positive") or ps["name"] in ("PositiveConstraint", "IndicatorBox"):
                                     continue        # infeasible warm starts have an infinite start objective
                                 comp["w_init"] = w0.tolist()
@@ -143,15 +170,31 @@ def check_trajectory(comp, nodes, edges):
     return viol, stats
 
 
+def where_of(comp, at):
+    """Coarse predicates of a descent violation (used to match known findings)."""
+    ps = comp["penalty"]
+    contiguous = None
+    if "grp_indices" in ps:
+        contiguous = list(ps["grp_indices"]) == list(range(len(ps["grp_indices"])))
+    flat = at if isinstance(at[0], (list, tuple)) else [at]
+    inner = sorted({(-1 if node[1] is None else int(node[1])) for node in flat})
+    return dict(solver=comp["solver"]["name"], datafit=(comp["datafit"] or {}).get("name"), penalty=ps["name"],
+                contiguous_groups=contiguous, max_inner_budget=max(inner) if -1 not in inner else 10 ** 9)
+
+
 def run(task, ctx):
     from mc import comp as C
     if task["op"] == "reweighted":
         return run_reweighted(task, ctx)
     tier = ctx.tier
-    s = task["solver"]
-    ks, es = traj.grid(s, tier)
+    if task["op"] == "deep":
+        s, ks, es, gen = "AndersonCD", list(range(13)), [7, 14], deep_comps(task, tier)
+    else:
+        s = task["solver"]
+        ks, es = traj.grid(s, tier)
+        gen = base_comps(task, tier)
     n = 0
-    for comp in base_comps(task, tier):
+    for comp in gen:
         nodes, edges = traj.explore(comp, ks, es, c01.HARNESS_DEFAULTS, C.execute)
         viol, st = check_trajectory(comp, nodes, edges)
         n += 1
@@ -164,11 +207,11 @@ def run(task, ctx):
         # accepted extrapolations: budgets e=6 and e=7 differ by more than one plain epoch would explain -> counted by twin
         for kind, where_, got, exp in viol:
             ctx.violation(f"solver:{s}.descent", kind, dict(op="traj", comp=comp, ks=ks, es=es, at=where_), got, exp,
-                          where=dict(solver=s, datafit=(comp["datafit"] or {}).get("name"), penalty=comp["penalty"]["name"]),
-                          rank=n)
+                          where=where_of(comp, where_), rank=n)
         if n <= 2:
             ctx.sample(dict(comp={k: comp[k] for k in ("solver", "datafit", "penalty", "xid", "storage")}, ks=ks, es=es))
-    count_extrapolations(task, ctx)
+    if task["op"] != "deep":
+        count_extrapolations(task, ctx)
 
 
 def count_extrapolations(task, ctx):
@@ -272,5 +315,6 @@ def describe(tier, agg):
             "k in 0..4 (0..6 thorough) x e in {1,2,6,7,8,14,default} ({1,2,3,5,6,7,8,12..15,default} thorough) is a state "
             "(one real solve); transitions are the validated prefix edges; true objective non-increasing on every edge and "
             "never above the start; IterativeReweightedL1: loss_history_ non-increasing, of length n_reweights, last entry == "
-            "objective; distinct = trajectories with > 2 distinct iterates")
+            "objective; plus 'deep' columns k in 0..12 at e in {7,14} with p0 in {1,2} on correlated designs (working sets smaller "
+            "than the support, zero weights, warm starts); distinct = trajectories with > 2 distinct iterates")
     return rule, {"trajectories": 300, "accepted_extrapolations": 1, "reweighted_runs": 50}
